@@ -19,54 +19,18 @@
 (*          state computes one row of the comparison matrix and prints it; *)
 (*          the harness replays the matrix into Software.compare_version   *)
 (***************************************************************************)
-EXTENDS Integers, Sequences, FiniteSets, TLC, Json, IOUtils
+EXTENDS Integers, Sequences, FiniteSets, TLC, Json, IOUtils, SshVersionOps
 
 CONSTANTS Mode       \* "mc" | "oracle"
 
 ---------------------------------------------------------------------------
-(* numeric, component by component *)
-RECURSIVE CmpSeq(_, _)
-CmpSeq(a, b) ==
-    IF a = <<>> /\ b = <<>> THEN 0
-    ELSE IF a = <<>> THEN -1                  \* a proper prefix is the older release
-    ELSE IF b = <<>> THEN 1
-    ELSE IF Head(a) < Head(b) THEN -1
-    ELSE IF Head(a) > Head(b) THEN 1
-    ELSE CmpSeq(Tail(a), Tail(b))
-
-CmpInt(x, y) == IF x < y THEN -1 ELSE IF x > y THEN 1 ELSE 0
-
-\* rank of a patch marker within one component tuple
-PatchRank(product, p) ==
-    CASE product = "OpenSSH"  -> IF p[1] = "p" THEN <<1, p[2]>> ELSE <<1, 1>>     \* none == p1
-      [] product = "Dropbear" -> IF p[1] = "test" THEN <<0, p[2]>> ELSE <<1, 0>>  \* testN before the release
-      [] OTHER                -> <<1, 0>>
-
-Compare(product, a, b) ==
-    LET c == CmpSeq(a.c, b.c) IN
-    IF c # 0 THEN c
-    ELSE CmpSeq(PatchRank(product, a.p), PatchRank(product, b.p))
-
-\* "available since": an algorithm that first appeared in release s is available in server v
-AvailableSince(product, v, s) == Compare(product, v, s) >= 0
-
-\* pairs the property does not order: they differ only by trailing zero components
-RECURSIVE AllZero(_)
-AllZero(s) == s = <<>> \/ (Head(s) = 0 /\ AllZero(Tail(s)))
-RECURSIVE OnlyTrailingZeros(_, _)
-OnlyTrailingZeros(a, b) ==
-    IF a = <<>> THEN AllZero(b) /\ b # <<>>
-    ELSE IF b = <<>> THEN AllZero(a)
-    ELSE Head(a) = Head(b) /\ OnlyTrailingZeros(Tail(a), Tail(b))
-Undetermined(a, b) == a.c # b.c /\ OnlyTrailingZeros(a.c, b.c)
-
 ---------------------------------------------------------------------------
 (* universes *)
 Comps == {0, 1, 9, 10, 100}
 Tuples(n) == UNION {[1..k -> Comps] : k \in 1..n}
 Patches(product) ==
     CASE product = "OpenSSH"  -> {<<"none", 0>>, <<"p", 1>>, <<"p", 2>>}
-      [] product = "Dropbear" -> {<<"none", 0>>, <<"test", 1>>}
+      [] product = "Dropbear SSH" -> {<<"none", 0>>, <<"test", 1>>}
       [] OTHER                -> {<<"none", 0>>}
 McUniverse(product) == {[c |-> t, p |-> q] : t \in Tuples(2), q \in Patches(product)}
 
@@ -81,7 +45,7 @@ Init ==
     /\ row = <<>>
     /\ IF Mode = "oracle"
        THEN product = Input.product /\ i \in 1..Len(Input.versions) /\ va = <<>>
-       ELSE product \in {"OpenSSH", "Dropbear", "libssh"} /\ i = 0 /\ va \in McUniverse(product)
+       ELSE product \in {"OpenSSH", "Dropbear SSH", "libssh"} /\ i = 0 /\ va \in McUniverse(product)
 
 \* one row of the comparison matrix
 ComputeRow ==
